@@ -195,6 +195,7 @@ fn entry_accessors_memfs(v: &Vfs, paths: &[String], rep: &mut Report) {
                 };
                 cur = cur.follow(f);
                 steps.push((if f { "follow(true)" } else { "follow(false)" }, entry_view(&cur), inner_followed));
+                steps.push((if f { "clone-after-follow(true)" } else { "clone-after-follow(false)" }, entry_view(&cur.clone()), entry_view(&cur)));
             }
             let up = ve.clone().upcast();
             steps.push(("upcast", entry_view(&up), entry_view(&ve)));
